@@ -223,7 +223,7 @@ func (x *refRun) leaf(l *Leaf) bool {
 		case "!":
 			return v == 0
 		}
-		c := Val(joinToks(l.Value))
+		c := x.w.CompareOperand(joinToks(l.Value), l.Wrap, x.epoch)
 		switch l.Op {
 		case "==":
 			return v == c
